@@ -312,15 +312,44 @@ def unresolved_point(ctx, cr):
             if pl is None:
                 ctx.ob(rule, key, False, "traversed_to is a constant", fn=f, line=ln)
                 continue
-            calls, consts, locs = flow.backward_slice(f, M.place_local(pl))
-            other = sorted(set(M.norm_path(c["fn"].get("path", "")) for c in calls if M.norm_path(c["fn"].get("decl", "")) != "std::clone::Clone::clone"))
-            params = [l for l in locs if 0 < l <= f["argc"]]
-            rc_params = []
-            for l in params:
-                ty = M.Ty(cr, f["locals"][l])
-                tt = ty.strip_refs()
-                if (tt.adt_path() or "").endswith("rc::Rc") and tt.args() and (tt.args()[0].adt_path() or "") == PAV:
-                    rc_params.append(l)
+            def traversal_origin(fk, fx, place, depth=0):
+                """-> (other calls on the slice, Rc<PathAwareValue> parameters reached, all parameters reached); a closure's captured
+                variables are followed into the function that builds the closure"""
+                calls_, _c, locs_ = flow.backward_slice(fx, M.place_local(place))
+                other_ = sorted(set(M.norm_path(c["fn"].get("path", "")) for c in calls_ if M.norm_path(c["fn"].get("decl", "")) != "std::clone::Clone::clone"))
+                params_ = [l for l in locs_ if 0 < l <= fx["argc"]]
+                rcs = []
+                for l in params_:
+                    tt = M.Ty(cr, fx["locals"][l]).strip_refs()
+                    if (tt.adt_path() or "").endswith("rc::Rc") and tt.args() and (tt.args()[0].adt_path() or "") == PAV:
+                        rcs.append((fk, l))
+                if fx.get("kind") == "closure" and 1 in params_ and depth < 2 and "::{closure" in fk:
+                    # which captured variables feed the value
+                    idxs = set()
+                    places = [place] + [((st_["rv"].get("p") if st_["rv"]["r"] == "ref" else M.op_place(st_["rv"].get("o", {})))) for _b, _s, st_ in M.iter_stmts(fx)
+                                        if "rv" in st_ and M.place_local(st_["p"]) in locs_ and st_["rv"]["r"] in ("ref", "use")]
+                    for pl_ in places:
+                        if pl_ is not None and not isinstance(pl_, int) and M.place_local(pl_) == 1:
+                            for pr in M.place_projs(pl_):
+                                if isinstance(pr, list) and pr[0] == "f":
+                                    idxs.add(pr[1])
+                                    break
+                    parent_k = fk.rsplit("::{closure", 1)[0]
+                    parent = cr.fns.get(parent_k)
+                    if parent is not None and idxs:
+                        params_ = [l for l in params_ if l != 1]
+                        for _b, _s, st_ in M.iter_stmts(parent):
+                            rv_ = st_.get("rv")
+                            if rv_ and rv_.get("r") == "agg" and rv_.get("ak") == "closure" and rv_.get("key") == fk:
+                                for ix in sorted(idxs):
+                                    if ix < len(rv_["ops"]) and M.op_place(rv_["ops"][ix]) is not None:
+                                        o2, r2, p2 = traversal_origin(parent_k, parent, M.op_place(rv_["ops"][ix]), depth + 1)
+                                        other_ = sorted(set(other_) | set(o2))
+                                        rcs += r2
+                                        params_ += ["%s:%s" % (parent_k.split("::")[-1], x) for x in p2]
+                return other_, rcs, params_
+            other, rc_params, params = traversal_origin(k, f, pl)
+            rc_params = sorted(set(rc_params))
             ok = not other and len(rc_params) == 1
             ctx.ob(rule, key, ok, "traversed_to is a clone of the function's own traversal parameter" if ok else
                    "the point reported as reached is not (only) the value this function is traversing: slice reaches parameters %s through %s" % (rc_params or params, other[:3] or "no call"),
@@ -364,9 +393,37 @@ READS = {
     "std::fs::DirEntry::path": "file name",
     "walkdir::DirEntry::path": "file name",
     "<std::result::Result<T, E> as std::ops::Try>::branch": "error propagation",
+    "<std::result::Result<T, F> as std::ops::FromResidual<std::result::Result<std::convert::Infallible, E>>>::from_residual": "error propagation",
+    "std::ops::FromResidual::from_residual": "error propagation",
+    "std::ops::Try::branch": "error propagation",
     "<std::path::PathBuf as std::ops::Deref>::deref": "file name",
     "<std::path::PathBuf as std::convert::AsRef<std::path::Path>>::as_ref": "file name",
 }
+
+
+def _is_read(c):
+    return M.norm_path(c["fn"].get("decl", "")) in ("std::io::Read::read_to_string",) or M.norm_path(c["fn"].get("path", "")) == "std::fs::read_to_string"
+
+
+def is_read_wrapper(cr, key, depth=0):
+    """a private helper that returns the text of a file as it was read (open + read_to_string, copies only): `read_file_to_string(path)`"""
+    fn = cr.fns.get(key)
+    if fn is None or depth > 1 or not ai.is_private_fn(fn):
+        return False
+    calls, consts, locs = flow.backward_slice(fn, 0, stop=_is_read)
+    saw_read = False
+    for c in calls:
+        cp, decl = M.norm_path(c["fn"].get("path", "")), M.norm_path(c["fn"].get("decl", ""))
+        if _is_read(c):
+            saw_read = True
+            continue
+        if cp in COPIES or cp in READS or decl in READS or decl in COPIES:
+            continue
+        if c["fn"].get("local") and is_read_wrapper(cr, c["fn"].get("key", ""), depth + 1):
+            saw_read = True
+            continue
+        return False
+    return saw_read
 
 
 def text_as_read(ctx, crates, sinks=None, floor=True):
@@ -394,12 +451,13 @@ def text_as_read(ctx, crates, sinks=None, floor=True):
                     ctx.ob(rule, key, True, "constant text", fn=f, line=t.get("ln", 0))
                     n_sites += 1
                     continue
-                calls, consts, locs = flow.backward_slice(f, M.place_local(pl), stop=lambda c: M.norm_path(c["fn"].get("decl", "")) in ("std::io::Read::read_to_string",) or M.norm_path(c["fn"].get("path", "")) == "std::fs::read_to_string")
+                wrappers = set(c2["fn"].get("key") for _b, c2 in M.iter_calls(f) if c2["fn"].get("local") and is_read_wrapper(cr, c2["fn"].get("key", "")))
+                calls, consts, locs = flow.backward_slice(f, M.place_local(pl), stop=lambda c: _is_read(c) or c["fn"].get("key") in wrappers)
                 bad = []
                 for c in calls:
                     cp = M.norm_path(c["fn"].get("path", ""))
                     decl = M.norm_path(c["fn"].get("decl", ""))
-                    if cp in COPIES or cp in READS or decl in READS or decl in COPIES:
+                    if cp in COPIES or cp in READS or decl in READS or decl in COPIES or c["fn"].get("key") in wrappers:
                         continue
                     if any(cp.endswith(s) for s in TEXT_SINKS_):
                         continue
